@@ -299,6 +299,74 @@ def gen_trap_spec(rng, which):
   return spec
 
 
+# fresh models with a user-given output_initialization list (F-C03-g): verify_config relates the list neither to
+# [output_min, output_max] nor to an order, so the FRESH model starts outside its bounds / decreasing
+FRESH_OUT_INIT_CLS = "output_initialization_outside_bounds_or_descending"
+FRESH_OUT_INIT_BAD = ["lattice_outside", "linear_outside", "lattice_descending"]
+FRESH_OUT_INIT_CONTROL = ["control_lattice", "control_linear", "control_outcal"]
+
+
+def gen_fresh_out_init_spec(rng, which):
+  """premade CalibratedLattice / CalibratedLinear, numeric monotone features only (no categorical feature: the
+  random categorical initialisation is F-C03-b), by class:
+  `lattice_outside` / `linear_outside`  no output calibration, output_initialization=[a, b] with a < output_min
+                                        or b > output_max: accepted, fresh model leaves its bounds;
+  `lattice_descending`                  output_calibration=True and a descending list: fresh model decreasing;
+  `control_*`                           the same shapes with the list inside the bounds and ascending: must hold."""
+  lin = "linear" in which
+  outcal = which in ("lattice_descending", "control_outcal")
+  fam = "linear_bounded" if lin else ("lattice_outcal" if outcal else "lattice")
+  n = rng.randint(2, 3)
+  feats = []
+  for i in range(n):
+    f = dict(name="f%d" % i, nb=0, mono=rng.choice(["increasing", "decreasing"]), ls=2, default=None, always=False,
+             conv=0, cmin=False, cmax=False, kps=[0.0, 1.0], learned=False, unimod=0, trusts=[], doms=[])
+    start = Fraction(rng.randint(-8, 8), 4)
+    kps = [start]
+    for _ in range(rng.randint(1, 3)):
+      kps.append(kps[-1] + Fraction(rng.randint(1, 8), 4))
+    f["kps"] = [float(k) for k in kps]
+    feats.append(f)
+  lo = Fraction(rng.randint(-8, 8), 4)
+  hi = lo + Fraction(rng.randint(2, 12), 4)
+  below = Fraction(rng.choice([1, 2, 4, 8, 16]), 2)
+  above = Fraction(rng.choice([1, 2, 4, 8, 16]), 2)
+  bounded = True
+  if which in ("lattice_outside", "linear_outside"):
+    side = rng.choice(["low", "high", "both"])
+    a = lo - below if side in ("low", "both") else lo
+    b = hi + above if side in ("high", "both") else hi
+    init = [a, b]
+  elif which == "lattice_descending":
+    bounded = rng.random() < 0.5          # with bounds the descending list lies inside them
+    init = [hi, lo] if rng.random() < 0.6 else [hi, (lo + hi) / 2, lo]
+  else:
+    q = (hi - lo) / 4
+    init = rng.choice([[lo, hi], [lo + q, hi - q], [lo, lo + q, hi]])
+    if which == "control_outcal":
+      bounded = rng.random() < 0.5
+  return dict(family=fam, kind="linear" if lin else "lattice", features=feats,
+              out_min=float(lo) if bounded else None, out_max=float(hi) if bounded else None, out_cal=outcal,
+              out_init=[float(v) for v in init], use_bias=False, kfl=False, num_terms=1, simplex=False,
+              lattices=None, num_lattices=0, rank=0, sep=True, lincomb=False, seed=rng.randint(0, 99),
+              hseed=rng.randint(0, 2 ** 30), fresh_out_init=which)
+
+
+def out_init_class(spec):
+  """'bad' iff the user-given output_initialization of a premade config has an entry outside [output_min,
+  output_max] or (with output calibration) is not ascending -- the class of F-C03-g"""
+  if spec["kind"].startswith("stack"):
+    return "ok"
+  init = [float(v) for v in spec["out_init"]]
+  if spec["out_min"] is not None and min(init) < spec["out_min"]:
+    return "bad"
+  if spec["out_max"] is not None and max(init) > spec["out_max"]:
+    return "bad"
+  if spec["out_cal"] and any(a > b for a, b in zip(init[:-1], init[1:])):
+    return "bad"
+  return "ok"
+
+
 def gen_invalid(rng):
   """configs `verify_config` / the builders reject with ValueError (both sides must reject)."""
   which = rng.choice(["rtl_sizes", "kfl_unimod", "one_lattice", "pair_range", "numeric_list", "cat_string",
@@ -913,6 +981,8 @@ def probe_columns(spec, nrng, n, missing=True):
 
 def failure_class(model, spec, clause, feature, hist):
   """stable class of a failure: the known finding classes, or 'other'"""
+  if hist == "init" and clause in ("bounds", "monotone") and out_init_class(spec) == "bad":
+    return FRESH_OUT_INIT_CLS
   if clause == "bounds":
     for l in model.layers:
       if type(l).__name__ == "Linear" and l.normalization_order == 1:
@@ -1015,6 +1085,7 @@ def oracle(ctx, model, spec, hist, nrng, case):
   if d > 1e-6 * scale:
     ok = False
     record_fail(ctx, "restore", dict(key, cls="other"), case, d, "restored model differs from the saved one")
+  case["_ok"] = ok
   return bool(np.max(y) - np.min(y) > 1e-9)
 
 
@@ -1081,6 +1152,7 @@ def run_case(ctx, spec, hist, tie_wanted=True):
     ctx.fail("finite", dict(model=fam, history=hist, cls="raises"), case, classify_exc(e),
              "model raises on valid probe inputs: " + str(e)[:300])
     varies = False
+  ctx._last_ok = case.pop("_ok", None)     # verdict of the oracle on this case (None: it raised / returned early)
   tie = case.pop("_tie", None)
   if tie is not None and tie_wanted:
     try:
@@ -1106,6 +1178,41 @@ def run_case(ctx, spec, hist, tie_wanted=True):
            sample=dict(family=fam, history=hist, features=[feature_class(f) for f in spec["features"]],
                        bounds=[spec["out_min"], spec["out_max"]], graph=real[:300]))
   return model, real
+
+
+def run_fresh_out_init_case(ctx, spec):
+  """one case of the stream `fresh_output_init`: the real premade model right after construction (history
+  "init") under the common oracle; a control case (list inside the bounds, ascending) must pass"""
+  which = spec["fresh_out_init"]
+  ctx.count("fresh_output_init:" + which)
+  ctx._last_ok = None
+  model, real = run_case(ctx, spec, "init")
+  if model is None:
+    ctx.count("fresh_output_init:%s:rejected" % which)
+    if which.startswith("control"):
+      ctx.fail("finite", dict(model=spec["family"], history="init", cls="raises"), dict(spec=spec, history="init"),
+               str(real)[:200], "a premade config with output_initialization inside the bounds does not build")
+    return model, real
+  verdict = {True: "holds", False: "violates", None: "not_judged"}[ctx._last_ok]
+  ctx.count("fresh_output_init:%s:%s" % (which, verdict))
+  if which.startswith("control"):
+    ctx.count("fresh_output_init:control:" + ("pass" if ctx._last_ok else "FAIL"))
+  return model, real
+
+
+def fresh_output_init(ctx, rng, pending):
+  """stream F-C03-g: 3 + ctx.n(1, 5) configs of the violating classes, ctx.n(3, 6) controls"""
+  import tf_keras
+  kinds = list(FRESH_OUT_INIT_BAD) + [rng.choice(FRESH_OUT_INIT_BAD) for _ in range(ctx.n(1, 5))]
+  nc = ctx.n(3, 6)
+  kinds += [FRESH_OUT_INIT_CONTROL[k % 3] for k in range(nc)]
+  for which in kinds:
+    spec = gen_fresh_out_init_spec(rng, which)
+    ctx.count("family:" + spec["family"])
+    model, real = run_fresh_out_init_case(ctx, spec)
+    del model
+    pending.append((spec, "valid", real))
+    tf_keras.backend.clear_session()
 
 
 def run(ctx):
@@ -1185,6 +1292,8 @@ def run(ctx):
     pending.append((spec, "valid", first))
     import tf_keras
     tf_keras.backend.clear_session()
+  # last, so that the configs of the older streams are the same per seed as before the stream existed
+  fresh_output_init(ctx, rng, pending)
   for spec, _, _ in pending:
     lines.append(wire_line(spec))
   fws = pending_fw(ctx)
@@ -1261,7 +1370,10 @@ def replay(ctx, failure):
   """re-executes one recorded failing case (config x history) on the current tree"""
   case = failure["case"]
   spec, hist = case["spec"], case["history"]
-  model, real = run_case(ctx, spec, hist)
+  if spec.get("fresh_out_init"):      # stream fresh_output_init: same oracle on the fresh model + its counters
+    model, real = run_fresh_out_init_case(ctx, spec)
+  else:
+    model, real = run_case(ctx, spec, hist)
   if model is None:
     ctx.notes.append("replay: model does not build: " + str(real))   # must then be rejected by the model too
   fws = pending_fw(ctx)
